@@ -38,13 +38,13 @@ static std::string rat(const CR &r) { return std::to_string(r.numerator()) + "/"
 struct SigRef { bool isPin; size_t idx; };
 
 struct Ins {
-	enum Kind { WAITFOR, WAITCLK, WAITCHANGE, WAITSTABLE, READ, WRITE, FORK } kind;
+	enum Kind { WAITFOR, WAITCLK, WAITCHANGE, WAITSTABLE, READ, WRITE, FORK, JOIN } kind;
 	CR d{0};
 	size_t clock = 0;                 // index into clocks
 	sim::WaitClock::TimingPhase phase = sim::WaitClock::AFTER;
 	std::vector<SigRef> sigs;
 	size_t pin = 0; std::string value;
-	size_t script = 0;
+	size_t script = 0;               // FORK: script to start; JOIN: index into the handles returned by fork so far
 };
 
 struct World {
@@ -61,6 +61,7 @@ struct Run : sim::SimulatorCallbacks {
 	std::ostringstream log;          // declared before `sim`: must outlive the simulator's destructor
 	sim::ReferenceSimulator sim;
 	int nextPid = 0;
+	std::vector<sim::SimulationFunction<void>::Handle> forkHandles; // what fork returned, in call order (JOIN k waits for the k-th)
 	bool perturb = false;
 	Rng prng;
 	explicit Run(World &world, uint64_t pseed) : w(world), sim(false), prng(pseed) {}
@@ -96,7 +97,9 @@ struct Run : sim::SimulatorCallbacks {
 			break;
 			case Ins::FORK: {
 				size_t child = ins.script;
-				sim::forkFunc<void>(std::function<sim::SimulationFunction<void>()>([this, child]() { return runScript(child); }));
+				// the slot is taken before the child runs its first segment (the model appends the handle before it runs the child)
+				size_t slot = forkHandles.size(); forkHandles.emplace_back();
+				forkHandles[slot] = sim::forkFunc<void>(std::function<sim::SimulationFunction<void>()>([this, child]() { return runScript(child); }));
 			} break;
 			default: break;
 		}
@@ -115,6 +118,7 @@ struct Run : sim::SimulatorCallbacks {
 					co_await sim::WaitChange(l);
 				} break;
 				case Ins::WAITSTABLE: co_await sim::WaitStable(); break;
+				case Ins::JOIN: if (ins.script < forkHandles.size() && forkHandles[ins.script]) co_await sim::SimulationFunction<void>::Join(forkHandles[ins.script]); break;
 				default: exec(pid, ins); break;
 			}
 		}
@@ -138,6 +142,7 @@ struct Run : sim::SimulatorCallbacks {
 						co_await sim::WaitChange(l);
 					} break;
 					case Ins::WAITSTABLE: co_await sim::WaitStable(); break;
+					case Ins::JOIN: if (ins.script < forkHandles.size() && forkHandles[ins.script]) co_await sim::SimulationFunction<void>::Join(forkHandles[ins.script]); break;
 					default: exec(pid, ins); break;
 				}
 				co_return 0;
@@ -317,6 +322,10 @@ static void runCase(uint64_t caseId, Rng rng, size_t nsteps, unsigned mode, unsi
 	hlim::Clock *beforePin = nullptr;
 	for (size_t tries = 0; tries < 16 && !beforePin; tries++) { size_t ci = rng.below(w.clocks.size()); if (relevant(ci)) beforePin = w.clocks[ci].getClk()->getClockPinSource(); }
 	size_t nstart = rng.range(1, 4), nfork = rng.below(3);
+	// join pattern (1 case in 4): the first started script forks a process at once and every started script joins it, so that several
+	// processes wait for the same one and become runnable together when it ends
+	bool joinCase = rng.chance(1, 4);
+	if (joinCase) { nfork = std::max<size_t>(nfork, 1); nstart = std::max<size_t>(nstart, 2); }
 	w.nstart = nstart;
 	w.scripts.resize(nstart + nfork);
 	auto genSigs = [&](size_t maxn) {
@@ -343,6 +352,12 @@ static void runCase(uint64_t caseId, Rng rng, size_t nsteps, unsigned mode, unsi
 		// handled is decided by the heap layout of std::priority_queue
 		bool inBefore = false;
 		auto read = [&](std::vector<SigRef> s) { Ins r; r.kind = Ins::READ; r.sigs = std::move(s); sc.push_back(r); };
+		if (joinCase && si < nstart) {
+			if (si == 0) { Ins f; f.kind = Ins::FORK; f.script = nstart; read({}); sc.push_back(f); }
+			else if (rng.chance(1, 3)) { Ins wt; wt.kind = Ins::WAITFOR; wt.d = CR{1, 16} / w.clocks[0].absoluteFrequency(); read({}); sc.push_back(wt); read(allSigs()); }
+			Ins j; j.kind = Ins::JOIN; j.script = 0;
+			read({}); sc.push_back(j); read(allSigs()); readOnly = true; inBefore = true;
+		}
 		for (size_t k = 0; k < len; k++) {
 			unsigned c = (unsigned) rng.below(100);
 			Ins ins;
@@ -372,6 +387,11 @@ static void runCase(uint64_t caseId, Rng rng, size_t nsteps, unsigned mode, unsi
 				read({}); sc.push_back(ins); read(allSigs()); readOnly = true; inBefore = false;
 			} else if (c < 78) {
 				read(genSigs(3));
+			} else if (c < 84 && si < nstart && nfork > 0 && !readOnly) {
+				// join the k-th forked process (several started scripts tend to wait for the same one; no-op when fewer forks happened or it has finished);
+				// the joiner resumes in whatever context the joined process ends: no writes or forks until the next wait, BEFORE-phase rules apply
+				ins.kind = Ins::JOIN; ins.script = rng.below(2);
+				read({}); sc.push_back(ins); read(allSigs()); readOnly = true; inBefore = true;
 			} else if (c < 94) {
 				if (readOnly) { read(genSigs(2)); continue; }
 				ins.kind = Ins::WRITE; ins.pin = rng.below(npins); ins.value = randBits(rng, W, rng.chance(1, 5));
@@ -398,6 +418,7 @@ static void runCase(uint64_t caseId, Rng rng, size_t nsteps, unsigned mode, unsi
 				case Ins::READ: o << "rd " << sigList(ins.sigs); break;
 				case Ins::WRITE: o << "wr " << ins.pin << ' ' << ins.value; break;
 				case Ins::FORK: o << "fk " << ins.script; break;
+				case Ins::JOIN: o << "jn " << ins.script; break;
 			}
 		}
 		o << '\n';
@@ -426,13 +447,22 @@ static void runCase(uint64_t caseId, Rng rng, size_t nsteps, unsigned mode, unsi
 			n++;
 		}
 	};
+	// With a JOIN several processes become ready inside one SimulationCoroutineHandler::run(); a fiber executes every instruction as its
+	// own awaitCoroutine() (start(..., false) = back of the ready queue), so the instructions of fibers that are ready together interleave
+	// where coroutine processes run one after the other: the fiber log is then compared with the first fiber run (reproducibility under
+	// any OS schedule, which is what the property states), not with the coroutine log.
+	bool hasJoin = false;
+	for (auto &sc : w.scripts) for (auto &ins : sc) hasJoin |= ins.kind == Ins::JOIN;
+	std::string fiberRef;
 	{
-		Run r(w, 0); std::string fl = r.run(circuit, true, ops);
-		if (fl != ref) o << "X fiber-differs " << firstDiff(ref, fl) << '\n'; else o << "X fiber-same\n";
+		Run r(w, 0); fiberRef = r.run(circuit, true, ops);
+		if (hasJoin) o << "X fiber-join-case " << (fiberRef == ref ? "same" : "interleaved") << '\n';
+		else if (fiberRef != ref) o << "X fiber-differs " << firstDiff(ref, fiberRef) << '\n'; else o << "X fiber-same\n";
 	}
+	const std::string &fiberExpect = hasJoin ? fiberRef : ref;
 	for (unsigned k = 0; k < reps; k++) {
 		{ Run r(w, rng.next()); std::string l = r.run(circuit, false, ops); if (l != ref) o << "X repeat-differs coroutine " << firstDiff(ref, l) << '\n'; }
-		{ Run r(w, rng.next()); r.perturb = true; std::string l = r.run(circuit, true, ops); if (l != ref) o << "X repeat-differs fiber " << firstDiff(ref, l) << '\n'; }
+		{ Run r(w, rng.next()); r.perturb = true; std::string l = r.run(circuit, true, ops); if (l != fiberExpect) o << "X repeat-differs fiber " << firstDiff(fiberExpect, l) << '\n'; }
 	}
 	o << "X reps " << reps << '\n';
 	o << "end\n";
